@@ -34,7 +34,8 @@ func (m *Machine) unop(fr *frame, in *ssa.UnOp, x Value) Value {
 			return m.F.BNot(t)
 		}
 	case token.ARROW:
-		m.unsupported("channel receive in %s", fr.fn)
+		ch, _ := x.(*Chan)
+		return m.chanRecv(fr, ch, in.CommaOk, in.X.Type().Underlying().(*types.Chan).Elem())
 	}
 	if p, ok := x.(Poison); ok {
 		if m.initing {
@@ -841,7 +842,10 @@ func (m *Machine) callBuiltin(fr *frame, fn *ssa.Builtin, args []Value) Value {
 		case *Map:
 			return F.Const(64, uint64(x.Len()))
 		case *Chan:
-			return F.Const(64, 0)
+			if x == nil {
+				return F.Const(64, 0)
+			}
+			return F.Const(64, uint64(len(x.buf)))
 		case Poison:
 			m.unsupported("len of poison: %s", x.Why)
 		}
@@ -925,7 +929,11 @@ func (m *Machine) callBuiltin(fr *frame, fn *ssa.Builtin, args []Value) Value {
 		panic(&GoPanic{V: m.panicValue(args[0]), Site: "panic@" + fr.fn.String()})
 	case "recover":
 		return m.doRecover(fr)
-	case "real", "imag", "complex", "close", "SliceData", "StringData", "String", "Slice", "Add":
+	case "close":
+		ch, _ := args[0].(*Chan)
+		m.chanClose(fr, ch)
+		return nil
+	case "real", "imag", "complex", "SliceData", "StringData", "String", "Slice", "Add":
 		m.unsupported("builtin %s in %s", fn.Name(), fr.fn.String())
 	case "ssa:wrapnilchk":
 		recv := args[0]
